@@ -24,3 +24,21 @@ func VerifURLOnCurrent(q url.Values) (map[string]string, url.Values, error) {
 	}
 	return fields, nil, nil
 }
+
+// VerifReadSettings returns, per saved configuration name, the field values as strings.
+func VerifReadSettings(fname string) (map[string]map[string]string, error) {
+	s, err := readSettings(fname)
+	if err != nil {
+		return nil, err
+	}
+	out := map[string]map[string]string{}
+	for _, c := range s.Configs {
+		m := map[string]string{}
+		for _, f := range configFields {
+			cfg := c.config
+			m[f.name] = cfg.get(f)
+		}
+		out[c.Name] = m
+	}
+	return out, nil
+}
